@@ -9,7 +9,15 @@ int verif_snprintf(char *buf, size_t size, const char *fmt, struct varg a, struc
   for (size_t f = 0; fmt[f]; f++) {
     if (fmt[f] != '%') { if (n + 1 < size) buf[n] = fmt[f]; n++; continue; }
     f++;
-    __CPROVER_precondition(fmt[f] == 's' || fmt[f] == 'c', "snprintf model: %s and %c only");
+    if (fmt[f] == 'i' || fmt[f] == 'd') {
+      /* the digits are not modelled: one placeholder byte */
+      /* (an enum argument is not classified by the shim's _Generic: any kind is accepted here) */
+      __CPROVER_precondition(ai < 3, "snprintf model: at most three arguments");
+      if (n + 1 < size) buf[n] = '#';
+      n++; ai++;
+      continue;
+    }
+    __CPROVER_precondition(fmt[f] == 's' || fmt[f] == 'c', "snprintf model: %s, %c and %i only");
     __CPROVER_precondition(ai < 3, "snprintf model: at most three arguments");
     if (fmt[f] == 'c') {
       __CPROVER_precondition(args[ai].kind == VK_INT, "snprintf %c: integer argument");
